@@ -46,6 +46,7 @@ n("n-c10-sext-by-shifts", S + "parsers.rs", "        match (num << (32 - len)).l
 n("n-c02-body-take-till", SS, "peek(take_until(\"*\"))", "peek(nom::sequence::terminated(nom::bytes::complete::take_till(|c| c == b'*'), peek(nom::character::complete::char('*'))))", ["C02", "C08", "C01"])
 m("c07-channel-alpha-only", SS, "opt(anychar)(channel_bytes)", "opt(nom::combinator::verify(anychar, |c: &char| c.is_ascii_alphabetic()))(channel_bytes)", ["C07"])
 m("c10-type27-cog-via-tenths", S + "long_range_ais_broadcast.rs", "        _ => Some(data as f32), // Course in degrees (0-359)", "        _ => parse_cog(data * 10),", ["C10", "C11"])
+m("c09-parse-armored-payload", SS, "ais_sentence.message = Some(messages::parse(&unarmored)?)", "{ let _ = &unarmored; ais_sentence.message = Some(messages::parse(&ais_sentence.data)?) }", ["C09"])
 m("c12-reverse-54-55", S + "types.rs", "AntiPollutionEquipment => 54,", "AntiPollutionEquipment => 55,", ["C12"])
 m("c12-epfd-15", S + "types.rs", "            15 => None,\n            _ => Some(Self::Unknown(data)),", "            _ => Some(Self::Unknown(data)),", ["C12"])
 m("c12-navaid-swap", S + "aid_to_navigation_report.rs", "9 => Some(Self::BeaconCardinalN),\n            10 => Some(Self::BeaconCardinalE),", "9 => Some(Self::BeaconCardinalE),\n            10 => Some(Self::BeaconCardinalN),", ["C12"])
